@@ -24,6 +24,9 @@ static Fields gen(Tape &t) {
   f.seti("klass", k);
   // recording manager only: the k-th allocation of the call fails once; success is then still held to the round trip
   f.seti("fault", t.chance(3, 4) ? 0 : t.range(1, 6));
+  // ownership states of the operands: made owner (or normalised with a partial mask) before the call
+  f.seti("sown", t.chance(3, 4) ? 0 : 1);
+  f.seti("bown", t.chance(5, 6) ? 0 : 1);
   return f;
 }
 
@@ -50,16 +53,33 @@ static std::string classify(const Snap &S, const Snap &B, int mode) {
   return "";
 }
 
+static std::string &intact_error() { static std::string e; return e; }
+
 template <class A> static Verdict check_type(const Fields &f, bool *relativeBranch) {
   using Ch = typename A::Ch;
   Parsed<A> ps, pb;
   parse_via<A>(ps, PE_SINGLE_EX, widen<Ch>(f.get("src")));
   parse_via<A>(pb, PE_SINGLE_EX, widen<Ch>(f.get("base")));
   if (ps.rc != 0 || pb.rc != 0) return Verdict::discard();
+  if (f.geti("sown")) VF_REQUIRE(A::MakeOwner(&ps.uri) == 0, "%s: uriMakeOwner(S) failed", A::name());
+  if (f.geti("bown")) VF_REQUIRE(A::MakeOwner(&pb.uri) == 0, "%s: uriMakeOwner(B) failed", A::name());
   Snap S = snapshot<A>(ps.uri), B = snapshot<A>(pb.uri);
+  // whatever happens below, S and B are the caller's: after the reference (and the way back) have been released they
+  // must still be what they were, and releasing them afterwards must be clean (ASan: no use after free, no double free)
+  struct Intact {
+    const typename A::Uri *s, *b; Snap S, B; std::string *err;
+    ~Intact() {
+      Snap s2 = snapshot<A>(*s), b2 = snapshot<A>(*b);
+      std::string ts, tb;
+      if (!S.sameAs(s2, false) || !B.sameAs(b2, false) || !to_string<A>(*s, &ts) || !to_string<A>(*b, &tb)) *err = "S or B changed after the reference was released";
+    }
+  };
+  std::string &intactErr = intact_error();
+  intactErr.clear();
   int mode = (int)f.geti("mode");
   LedgerMM mm;
   bool useMm = f.geti("mm") != 0;
+  Intact intact{&ps.uri, &pb.uri, S, B, &intactErr};
   typename A::Uri d, t;
   memset(&d, 0xA5, sizeof d);
   int fault = useMm ? (int)f.geti("fault") : 0;
@@ -139,8 +159,12 @@ static Verdict check(const Fields &f) {
   bool rel = false;
   Verdict v = check_type<Api<char>>(f, &rel);
   if (v.kind != Verdict::PASS) return v;
+  if (!intact_error().empty()) return Verdict::fail("A: S='" + esc(f.get("src")) + "' B='" + esc(f.get("base")) + "': " + intact_error());
   v = check_type<Api<wchar_t>>(f, &rel);
   if (v.kind != Verdict::PASS) return v;
+  if (!intact_error().empty()) return Verdict::fail("W: S='" + esc(f.get("src")) + "' B='" + esc(f.get("base")) + "': " + intact_error());
+  if (f.geti("sown")) stats().hit("S_owner_before_the_call");
+  if (f.geti("bown")) stats().hit("B_owner_before_the_call");
   stats().hit("overlap_class=" + std::to_string(f.geti("klass")));
   stats().hit(f.geti("mode") ? "mode=domain_root" : "mode=relative");
   MUri s = m_split(f.get("src")), b = m_split(f.get("base"));
@@ -157,6 +181,7 @@ static Verdict enumerate(int tier, int shard, int nshards, Fields *failing) {
     Fields f;
     f.set("src", d.abss[(size_t)(i / 2 / n)]); f.set("base", d.abss[(size_t)(i / 2 % n)]);
     f.seti("mode", (long long)(i & 1)); f.seti("mm", (long long)((i >> 1) & 1)); f.seti("klass", 10); f.seti("fault", 0);
+    f.seti("sown", (long long)((i / 2) % 3 == 0)); f.seti("bown", (long long)((i / 2) % 5 == 0));
     return f;
   }, failing);
 }
